@@ -64,7 +64,7 @@ Fixpoint dom (d : det T) : bool :=
   match d with
   | DItems l => forallb dom_item l && nodupb (map item_key l)
   | DSubs l => forallb dom l && existsb (fun s => negb (plain_single s)) l
-  | DMixed => false
+  | DMixed | DItemsOr _ => false
   end.
 
 (* some item lost its original values (disable_conversion_to_plain) *)
@@ -72,6 +72,7 @@ Fixpoint has_disabled (d : det T) : bool :=
   match d with
   | DItems l => existsb (fun i => match i_orig i with None => true | _ => false end) l
   | DSubs l => existsb has_disabled l
+  | DItemsOr l => existsb (fun i => match i_orig i with None => true | _ => false end) l
   | DMixed => false
   end.
 
@@ -84,7 +85,7 @@ Definition field_ok (f : option str) : Prop :=
   match f with None => True | Some x => x <> [] /\ mem c_pipe x = false end.
 
 Definition inv_val (re : bool) (v : sval) : Prop :=
-  if re then (exists s, v = SStr [PStr s]) \/ v = SBad
+  if re then exists s, v = SStr [PStr s]
   else match v with
        | SStr s => exists t, s = parse true t
        | SNum _ | SFlt _ | SBool _ | SNull => True
@@ -101,6 +102,6 @@ Fixpoint inv (d : det T) : Prop :=
   | DItems l => Forall inv_item l
   | DSubs l => (fix go (l : list (det T)) : Prop :=
                   match l with [] => True | x :: r => inv x /\ go r end) l
-  | DMixed => False
+  | DMixed | DItemsOr _ => False
   end.
 End Dom.
